@@ -1,9 +1,12 @@
 #!/bin/bash
 # usage: eval_seed.sh <patch> <prop>... : apply patch to /repo, run the named checks, restore /repo
 P=$1; shift
-git -C /repo apply "$P" || { echo "patch does not apply"; exit 2; }
+git -C /repo apply "$(realpath "$P")" || { echo "patch does not apply"; exit 2; }
 for p in "$@"; do
-  /verif/check $p 2>&1 | grep -E "^\[|VIOLATION|failing input|disagreement|broken" | head -4 | cut -c1-330
+  /verif/check $p > /tmp/eval_seed.out 2>&1
+  grep -E "^\[" /tmp/eval_seed.out | cut -c1-200
+  grep -E "failing input|disagreement|broken" /tmp/eval_seed.out | head -2 | cut -c1-330
+  grep -E "^VIOLATION" /tmp/eval_seed.out
 done
 git -C /repo checkout -- .
 git -C /repo status --short
